@@ -1,0 +1,108 @@
+//go:build verif
+
+package pgdump
+
+// Verification hooks: add-only aliases of unexported functions so that an
+// external harness (built with -tags verif) can call them directly.
+// Not compiled in normal builds.
+
+var (
+	VerifU16                     = u16
+	VerifU32                     = u32
+	VerifU64                     = u64
+	VerifAlign                   = align
+	VerifCstring                 = cstring
+	VerifToInt                   = toInt
+	VerifParseHeader             = parseHeader
+	VerifParseItems              = parseItems
+	VerifValidHeader             = validHeader
+	VerifAlignFromChar           = alignFromChar
+	VerifTypeAlign               = typeAlign
+	VerifReadValue               = readValue
+	VerifIsShortVarlena          = isShortVarlena
+	VerifDetectAttrSchema        = detectAttrSchema
+	VerifDecodeScalar            = decodeScalar
+	VerifDecodePoint             = decodePoint
+	VerifDecodePathOrPolygon     = decodePathOrPolygon
+	VerifDecodeBitString         = decodeBitString
+	VerifDecodeRange             = decodeRange
+	VerifDecodeNumericRange      = decodeNumericRange
+	VerifDecodeInterval          = decodeInterval
+	VerifDecodeInet              = decodeInet
+	VerifDecodeArray             = decodeArray
+	VerifParseArrayElements      = parseArrayElements
+	VerifSafeString              = safeString
+	VerifParseJSONBObject        = parseJSONBObject
+	VerifParseJSONBArray         = parseJSONBArray
+	VerifTotalLen                = totalLen
+	VerifEntryOffLen             = entryOffLen
+	VerifEndOffset               = endOffset
+	VerifDecodeJEntry            = decodeJEntry
+	VerifDecodeJNumeric          = decodeJNumeric
+	VerifDecodeNumericShort      = decodeNumericShort
+	VerifDecodeNumericLong       = decodeNumericLong
+	VerifComputeNumeric          = computeNumeric
+	VerifDecompressPGLZ          = decompressPGLZ
+	VerifDecompressLZ4           = decompressLZ4
+	VerifComputePageChecksum     = computePageChecksum
+	VerifChecksumComp            = checksumComp
+	VerifIsZeroPage              = isZeroPage
+	VerifPgChecksumBlock         = pgChecksumBlock
+	VerifFindConfigSection       = findConfigSection
+	VerifFindStorageSection      = findStorageSection
+	VerifFormatLSN               = formatLSN
+	VerifFormatWALFilename       = formatWALFilename
+	VerifPgEpochToTime           = pgEpochToTime
+	VerifInferPGVersion          = inferPGVersion
+	VerifVerifyCRC32C            = verifyCRC32C
+	VerifMakeCRC32CTable         = makeCRC32CTable
+	VerifFormatCSVValue          = formatCSVValue
+	VerifDetectIndexType         = detectIndexType
+	VerifParseIndexPage          = parseIndexPage
+	VerifParseBTreePageSpecial   = parseBTreePageSpecial
+	VerifParseHashPageSpecial    = parseHashPageSpecial
+	VerifParseGiSTPageSpecial    = parseGiSTPageSpecial
+	VerifParseGINPageSpecial     = parseGINPageSpecial
+	VerifParseSPGiSTPageSpecial  = parseSPGiSTPageSpecial
+	VerifParseBTreeMeta          = parseBTreeMeta
+	VerifParseHashMeta           = parseHashMeta
+	VerifParseGINMeta            = parseGINMeta
+	VerifDumpTable               = dumpTable
+	VerifWithDefaults            = withDefaults
+	VerifTruncate                = truncate
+	VerifFormatDump              = formatDump
+	VerifMatchValue              = matchValue
+	VerifMatchMap                = matchMap
+	VerifContainsIgnoreCase      = containsIgnoreCase
+	VerifBytesContains           = bytesContains
+	VerifBytesEqual              = bytesEqual
+	VerifParseSequenceTuple      = parseSequenceTuple
+	VerifQuoteIdent              = quoteIdent
+	VerifFormatSQLValue          = formatSQLValue
+	VerifQuoteLiteral            = quoteLiteral
+	VerifMapToJSON               = mapToJSON
+	VerifWriteJSONValue          = writeJSONValue
+	VerifPgTypeToSQL             = pgTypeToSQL
+	VerifIsReservedWord          = isReservedWord
+	VerifParseWALPage            = parseWALPage
+	VerifParsePageHeader         = parsePageHeader
+	VerifParseXLogRecord         = parseXLogRecord
+	VerifParseBlockRefs          = parseBlockRefs
+	VerifIsValidMagic            = isValidMagic
+	VerifPgVersionFromMagic      = pgVersionFromMagic
+	VerifIsZeroPadding           = isZeroPadding
+	VerifAlign8                  = align8
+	VerifRmgrName                = rmgrName
+	VerifOperationName           = operationName
+	VerifParseDroppedColumns     = parseDroppedColumns
+	VerifParseAllAttributes      = parseAllAttributes
+	VerifBuildColumnsWithDropped = buildColumnsWithDropped
+)
+
+// VerifScanTable exposes the unexported method (*SecretScanner).scanTable.
+func VerifScanTable(s *SecretScanner, dbName string, table *TableDump) []SecretFinding {
+	return s.scanTable(dbName, table)
+}
+
+// VerifLoadCatalog exposes (*RemoteClient).loadCatalog.
+func VerifLoadCatalog(c *RemoteClient, dbOID uint32) { c.loadCatalog(dbOID) }
